@@ -509,6 +509,39 @@ static void many_lives(int okind, Cipher c, int be)
     guard_leave();
 }
 
+/* Four objects of one kind alive at once (the search above has one or two), keyed and used, then cleaned up in turn:
+ * every block must reach free() wiped, and what is still allocated afterwards must hold nothing. */
+static void several_objects(int okind, Cipher c, int be)
+{
+    union { CtrObj c; ParObj p; } h[4]; static uint8_t in[512], out[512], tw[512];
+    char cd[64], sig[120]; int i, k, bs = cipher_bs(c), r = 1;
+    snprintf(cd, sizeof(cd), "c17several %d %d %d", okind, (int)c, be);
+    snprintf(sig, sizeof(sig), "C17/%s/%s/%s/several-objects", okind == OK_CTR ? "ctr" : "parallel", cipher_name(c), be_name(be));
+    if (guard_enter(sig, cd)) return;
+    arena_reset(); memset(h, 0, sizeof(h)); lcg_fill(in, sizeof(in), 19); lcg_fill(tw, sizeof(tw), 20);
+    for (i = 0; i < 4; ++i) {
+        unsigned klen = c == CK_MANTIS ? 16 : (unsigned)bs * (unsigned)(1 + i % 3);
+        if (okind == OK_CTR) { r &= ctr_init(c, be, &h[i].c); r &= ctr_set_key(c, &h[i].c, KEYS[i & 1], klen, 5 + (unsigned)i); r &= ctr_encrypt(c, &h[i].c, out, in, 75 + (size_t)i); }
+        else { r &= par_init(c, be, &h[i].p); r &= par_set_key(c, &h[i].p, KEYS[i & 1], klen, 5 + (unsigned)i, MANTIS_ENCRYPT); r &= par_crypt(c, &h[i].p, out, in, tw, (size_t)bs * 9, 0); }
+    }
+    if (r != 1) engine_error("several_objects: a valid call failed");
+    for (i = 0; i < 4; ++i) {
+        ++g_cnt.evaluations;
+        if (okind == OK_CTR) ctr_cleanup(c, &h[i].c); else par_cleanup(c, &h[i].p);
+        for (k = 0; k < arena_count(); ++k) {
+            AllocRec *rc = arena_rec(k);
+            if (rc->freed && rc->wiped != 1) { violation(sig, cd, "cleanup of object %d of 4: a block of %zu bytes reached free() with a non-zero byte at offset %d", i + 1, rc->size, rc->first_dirty); guard_leave(); return; }
+        }
+    }
+    for (k = 0; k < arena_count(); ++k) {
+        AllocRec *rc = arena_rec(k); size_t q; int nz = 0;
+        if (!rc->live) continue;
+        for (q = 0; q < rc->size; ++q) nz += rc->ptr[q] != 0;
+        if (nz > 8) { violation(sig, cd, "after the cleanup of all four objects a block of %zu bytes is still allocated and holds %d non-zero bytes", rc->size, nz); break; }
+    }
+    guard_leave();
+}
+
 static void body(void)
 {
     int i, ok, c, be, job = 0, cut = 0, mode;
@@ -518,7 +551,8 @@ static void body(void)
     mode = !strcmp(g_opts.sub, "c17") ? 17 : 15;
     if (g_opts.replay) {
         char nm[96]; const char *colon = strrchr(g_opts.replay, ':'); const MCKind *kp = &KIND;
-        { int a_, b_, c_; if (sscanf(g_opts.replay, "c15lives %d %d %d", &a_, &b_, &c_) == 3) { many_lives(a_, (Cipher)b_, c_); return; } }
+        { int a_, b_, c_; if (sscanf(g_opts.replay, "c15lives %d %d %d", &a_, &b_, &c_) == 3) { many_lives(a_, (Cipher)b_, c_); return; }
+          if (sscanf(g_opts.replay, "c17several %d %d %d", &a_, &b_, &c_) == 3) { several_objects(a_, (Cipher)b_, c_); return; } }
         if (!colon || (size_t)(colon - g_opts.replay) >= sizeof(nm)) engine_error("bad replay");
         memcpy(nm, g_opts.replay, (size_t)(colon - g_opts.replay)); nm[colon - g_opts.replay] = 0;
         if (!setup_kind(nm)) engine_error("bad replay kind");
@@ -536,11 +570,10 @@ static void body(void)
         if (job < 4) sample_add("%s: %s %s on %s, alphabet of %d operations over %s, depth <= %d", nm, okname(), cipher_name(g_c), be_name(g_be), l_nops,
                                 mode == 17 ? "one object" : "two objects", KIND.max_depth);
     }
-    if (mode == 15)
-        for (ok = 0; ok < 2; ++ok) for (c = 0; c < 3; ++c) for (be = 0; be <= cipher_max_be((Cipher)c); ++be, ++job) {
-            if (job % g_opts.nshards != g_opts.shard) continue;
-            many_lives(ok ? OK_PAR : OK_CTR, (Cipher)c, be);
-        }
+    for (ok = 0; ok < 2; ++ok) for (c = 0; c < 3; ++c) for (be = 0; be <= cipher_max_be((Cipher)c); ++be, ++job) {
+        if (job % g_opts.nshards != g_opts.shard) continue;
+        if (mode == 15) many_lives(ok ? OK_PAR : OK_CTR, (Cipher)c, be); else several_objects(ok ? OK_PAR : OK_CTR, (Cipher)c, be);
+    }
     note_num("kinds_cut_by_depth_cap", cut);
     distinct_add_u64(1); distinct_add_u64(2);
 }
